@@ -51,6 +51,12 @@ func runCase(c ringlab.ChurnCfg, rep *batch.Report) batch.CaseResult {
 		}
 		return out
 	}
+	// the cause behind misplaced data, seen directly: a predecessor pointer that moved away from a live node
+	for _, f := range ringlab.CheckPredPointer(res) {
+		out.Violations = append(out.Violations, batch.Viol{Key: f.Key, What: f.What, Witness: f.Witness})
+	}
+	rep.Count("predecessor_pointer_samples_checked", res.PredSamples)
+	rep.Count("straggler_stalls_injected", res.Stragglers)
 	findings, keysSeen := ringlab.CheckOwnership(res)
 	uncertain, reads := 0, 0
 	rep.Count("stored_keys_checked", int64(keysSeen))
@@ -143,6 +149,9 @@ func main() {
 			if c.Initial > 4 {
 				c.Initial = 4
 			}
+		}
+		if i%4 == 0 && !c.RealRPC {
+			c.Straggler = true // one step in twelve of Notify / stabilize stalls for 20-40 ms
 		}
 		if r.WantCase(c.Name) {
 			cases = append(cases, c)
